@@ -117,16 +117,18 @@ theorem renumberCmd_check_tree (t : Tree) (arg : Bytes) (r : RunResult)
       · simp only [Option.some.injEq] at h; subst h; rfl
       · split at h
         · simp only [Option.some.injEq] at h; subst h; rfl
-        · simp only [] at h
-          split at h
+        · split at h
           · simp only [Option.some.injEq] at h; subst h; rfl
-          · rename_i c hc
-            simp only [renumberOne] at h
+          · simp only [] at h
             split at h
-            · simp only [Option.some.injEq] at h; subst h
-              exact setFile_same _ c t hc
-            · simp only [Bool.true_eq_false, if_true, Option.some.injEq] at h; subst h
-              exact setFile_same _ c t hc
+            · simp only [Option.some.injEq] at h; subst h; rfl
+            · rename_i c hc
+              simp only [renumberOne] at h
+              split at h
+              · simp only [Option.some.injEq] at h; subst h
+                exact setFile_same _ c t hc
+              · simp only [if_true, Option.some.injEq] at h; subst h
+                exact setFile_same _ c t hc
     · simp only [Option.some.injEq] at h; subst h; rfl
 
 /-- **C15.** generate and compare inspect; so do format and renumber-tests under --check -/
@@ -314,33 +316,37 @@ end Crs.Props
 namespace Crs.Props
 open Crs Crs.Cli
 
-/-- **C13 (single file).** `util renumber-tests ARG [--check]` either leaves the tree as it is, or rewrites exactly one
-    file: a file `tests/regression/tests/D/B` whose own name `B` is a test-file name `NNNNNN.yaml|yml`; what is written is
-    the renumbering of that file under the id taken from *its* name (not from the argument), and the status is that
-    file's. All other files — whatever the argument looks like — are out of reach (`setFile_lookup_other`). -/
+/-- **C13 (single file).** `util renumber-tests ARG [--check]` — whatever the argument looks like: path separators, `..`,
+    any extension — either leaves the tree as it is, or rewrites exactly one file, and that file is one `--all` would take
+    too (`renumberId?`: below tests/regression/tests, named `NNNNNN.yaml|yml`); what is written is the renumbering of that
+    file under the id taken from *its* name (not from the argument), and the status is that file's. -/
 theorem C13_single_file (check : Bool) (t : Tree) (arg : Bytes) (r : RunResult) (h : renumberCmd check t arg = some r) :
-    r.tree = t ∨ ∃ d b id c, testFileId? b = some id ∧
-      lookup (b!"tests/regression/tests/" ++ d ++ b!"/" ++ b) t = some c ∧
-      r.tree = setFile (b!"tests/regression/tests/" ++ d ++ b!"/" ++ b) (renumberOne check id c).1 t ∧
-      r.ok = (renumberOne check id c).2 := by
+    r.tree = t ∨ ∃ p id c, renumberId? p = some id ∧ lookup p t = some c ∧
+      r.tree = setFile p (renumberOne check id c).1 t ∧ r.ok = (renumberOne check id c).2 := by
   unfold renumberCmd at h
   split at h
   · simp at h
   split at h
   · simp at h
   · split at h
-    · rename_i d b isFile _
+    · rename_i p isFile _
       split at h
       · simp only [Option.some.injEq] at h; subst h; exact Or.inl rfl
-      · rename_i id hid
+      · rename_i hin
         split at h
         · simp only [Option.some.injEq] at h; subst h; exact Or.inl rfl
-        · simp only [] at h
+        · rename_i id hid
           split at h
           · simp only [Option.some.injEq] at h; subst h; exact Or.inl rfl
-          · rename_i c hc
-            simp only [Option.some.injEq] at h; subst h
-            exact Or.inr ⟨d, b, id, c, hid, hc, rfl, rfl⟩
+          · simp only [] at h
+            split at h
+            · simp only [Option.some.injEq] at h; subst h; exact Or.inl rfl
+            · rename_i c hc
+              simp only [Option.some.injEq] at h; subst h
+              refine Or.inr ⟨p, id, c, ?_, hc, rfl, rfl⟩
+              have hin' : inDir b!"tests/regression/tests" p = true := by
+                simpa using hin
+              simp [renumberId?, hin', hid]
     · simp only [Option.some.injEq] at h; subst h; exact Or.inl rfl
 
 end Crs.Props
